@@ -120,6 +120,10 @@ type certShape struct {
 	subject *pkix.Name              // non-nil: issued by a CA named `issuer` (issuer and subject differ); nil: self-signed
 	sigAlg  x509.SignatureAlgorithm // how the certificate itself is signed (0: SHA256WithRSA)
 	rawName []byte                  // non-nil: this DER RDNSequence is the name (encodings Go's pkix.Name would not produce)
+	// validity: when set, the certificate's validity period is exactly [notBefore, notAfter] (either may be the
+	// zero time, i.e. no validity period at all) instead of the default 2023-11-14 .. 2033-05-18
+	validity            bool
+	notBefore, notAfter time.Time
 }
 
 var caVerifDir string // where the pool keys live (set by poolKeyDir); the CA key is pool key 2
@@ -237,6 +241,9 @@ func makeRSACert(key *rsa.PrivateKey, sh certShape) *x509.Certificate {
 	}
 	tmpl := &x509.Certificate{SerialNumber: sh.serial, Subject: sh.issuer, NotBefore: time.Unix(1700000000, 0), NotAfter: time.Unix(2000000000, 0),
 		KeyUsage: x509.KeyUsageDigitalSignature, BasicConstraintsValid: true, SignatureAlgorithm: sh.sigAlg, RawSubject: sh.rawName}
+	if sh.validity {
+		tmpl.NotBefore, tmpl.NotAfter = sh.notBefore, sh.notAfter
+	}
 	parent, signer := tmpl, key
 	if sh.subject != nil {
 		keyMu.Lock()
